@@ -1,12 +1,18 @@
 #!/usr/bin/env python3
 """Assemble /verif/MANIFEST.json from manifest.d/*.json fragments (one per claimed property)
 and manifest.d/_not_applicable.json.  Run after adding / changing a fragment."""
-import glob, json, os
+import glob, json, os, subprocess, sys
 ROOT = os.path.dirname(os.path.dirname(os.path.abspath(__file__)))
+# only fragments that are tracked (or staged) in git are registered, so that a family still being
+# built is never claimed; --all registers every fragment on disk
+tracked = set(subprocess.run(["git", "-C", ROOT, "ls-files", "manifest.d"], capture_output=True, text=True).stdout.split())
+ALL = "--all" in sys.argv
 props = [json.loads(l)["id"] for l in open(os.path.join(ROOT, "properties.jsonl"))]
 checks = []
 claimed = set()
 for f in sorted(glob.glob(os.path.join(ROOT, "manifest.d", "C*.json"))):
+    if not ALL and os.path.relpath(f, ROOT) not in tracked:
+        continue
     fr = json.load(open(f))
     pid = fr["property_id"]
     claimed.add(pid)
